@@ -1,4 +1,4 @@
-import Aoe.Lemmas.TrigStep
+import Aoe.Lemmas.TrigFuel
 /-!
 # C06 – trigger links survive every structural operation
 
@@ -82,6 +82,50 @@ theorem unset_stays_unset {fx : Fix} {tm tm' : TM} {ops : List Op} (hi : Inv tm)
     (hn : e.target = none) : e'.target = none := by
   obtain ⟨_, r⟩ := (hist_good (c := false) (fun h => by cases h) hi h).step.link t ht t' ht' hu
   exact ((r j e e' he he').2.2 ha).1 hn
+
+/-! ## clause 4: the copies of a trigger tree refer to the copies, not to the originals -/
+
+/-- **clause 4** (`copy_trigger_tree`, pinned and repaired tree search alike): there is a node list `known` (the tree,
+in search order) such that the originals are untouched (their effects included), exactly one copy per listed node is
+appended – the copy of `known[i]` at position `n + i`, returned as `news[i]` – and every activate/deactivate effect of a
+copy whose source effect pointed at trigger `k'` points at position `n + i'` with `known[i'] = k'`, i.e. at the copy of
+`k'`; never at an original (`n + i' ≥ n`). Other effects are copied verbatim. -/
+theorem tree_copy_closed {fixed : Bool} {tm tm' : TM} {s : Sel} {news : List Nat} (hi : Inv tm)
+    (h : copyTree fixed tm s = .ok (tm', news)) :
+    ∃ known : List Nat, (∀ k ∈ known, k < tm.trigs.length) ∧ news.length = known.length ∧
+      tm'.trigs.take tm.trigs.length = tm.trigs ∧ tm'.trigs.length = tm.trigs.length + known.length ∧
+      ∀ (i k : Nat), known[i]? = some k → ∃ src c, tm.trigs[k]? = some src ∧
+        tm'.trigs[tm.trigs.length + i]? = some c ∧ news[i]? = some c.uid ∧ c.effs.length = src.effs.length ∧
+        ∀ (j : Nat) (e e' : Eff), src.effs[j]? = some e → c.effs[j]? = some e' →
+          e'.kind = e.kind ∧ (e.isAct = false → e' = e) ∧
+          (e.isAct = true → ∃ k' i', e.target = some k' ∧ known[i']? = some k' ∧ e'.target = some (tm.trigs.length + i')) :=
+  copyTree_shape hi h
+
+/-- the fuel of the modelled tree search (`len(triggers) + 2`) is never exhausted: the model's recursion ends for the
+same reason the Python recursion does (every level below the root visits a new valid index) -/
+theorem tree_search_fuel_suffices {fixed : Bool} {tm : TM} {f : Found} : treeNodes fixed tm f ≠ .error .fuel :=
+  treeNodes_no_fuel
+
+/-- **import_remap** (`import_triggers`, default index; an explicit index is this followed by `move_triggers` of the new
+ids): existing triggers untouched, imported copies appended with id = position, display order reset to the identity;
+a link between imported triggers points at the imported copy of its target (the last imported trigger with that old
+id), a link to a trigger that was not imported is reset to -1, an unset link stays unset. -/
+theorem import_remap {tm tm' : TM} {ts : List Trig} {news : List Nat} (h : importTriggers tm ts none = .ok (tm', news)) :
+    tm'.trigs.take tm.trigs.length = tm.trigs ∧ tm'.trigs.length = tm.trigs.length + ts.length ∧
+    tm'.order = range (tm.trigs.length + ts.length) ∧
+    ∀ (i : Nat) (t : Trig), ts[i]? = some t → ∃ c, tm'.trigs[tm.trigs.length + i]? = some c ∧
+      c.tid = tm.trigs.length + i ∧ news[i]? = some c.uid ∧ c.effs.length = t.effs.length ∧
+      ∀ (j : Nat) (e e' : Eff), t.effs[j]? = some e → c.effs[j]? = some e' →
+        e'.kind = e.kind ∧ (e.isAct = false → e' = e) ∧
+        (e.isAct = true → (e.target = none → e'.target = none) ∧ ∀ k, e.target = some k →
+          (k ∈ ts.map (·.tid) → ∃ i' : Nat, (ts[i']?).map (·.tid) = some k ∧ e'.target = some (tm.trigs.length + i')) ∧
+          (k ∉ ts.map (·.tid) → e'.target = none)) :=
+  import_shape h
+
+/-- a tree copy that meets the hypotheses: the 3-cycle of `cyc` below (root 0) -/
+example : ∃ tm' news, copyTree false ⟨[⟨0, 0, [⟨.act, some 1⟩]⟩, ⟨1, 1, [⟨.deact, some 0⟩]⟩], [1, 0], [0, 1], 2⟩ (.index 0) = .ok (tm', news) ∧
+    tm'.trigs.map (fun t => t.effs.map (·.target)) = [[some 1], [some 0], [some 3], [some 2]] :=
+  ⟨_, _, rfl, rfl⟩
 
 /-! ## clause 5: an effect whose target was removed never ends up pointing at a different trigger -/
 
